@@ -8,78 +8,14 @@
 From Coq Require Import Reals List Lra Psatz Nsatz.
 From EFLib Require Import C11_MatR.
 From EFP Require Import Gen_Pmat C11_pmat C11_rot C10_base.
+From EFP Require Export C10_strain.
 Import ListNotations.
 Open Scope R_scope.
-
-Definition Bnode3 (r2 gx gy gz : R) : mat :=
-  let c := 1 / r2 in
-  [[gx; 0; 0]; [0; gy; 0]; [0; 0; gz]; [0; gz * c; gy * c]; [gz * c; 0; gx * c]; [gy * c; gx * c; 0]].
-Definition Bnode2 (r2 gx gy : R) : mat :=
-  let c := 1 / r2 in [[gx; 0]; [0; gy]; [gy * c; gx * c]].
-
-Lemma inv_r2 r2 : r2 * r2 = 2 -> 1 / r2 = r2 / 2.
-Proof.
-  intro H. assert (r2 <> 0) by (intro E; rewrite E in H; lra).
-  apply Rmult_eq_reg_l with r2; [|assumption]. replace (r2 * (r2 / 2)) with (r2 * r2 / 2) by field.
-  rewrite H. field. assumption.
-Qed.
-
-(* ---- strain of the moved element = Kelvin-Mandel rotation of the strain:
-        B(Q g) (Q u) = P B(g) u     for ALL a, b (no orthonormality needed) *)
-Theorem strain_moves3 : forall a1 a2 a3 b1 b2 b3 r2 gx gy gz ux uy uz, r2 * r2 = 2 ->
-  let Q := Qmat3 a1 a2 a3 b1 b2 b3 in
-  let g' := mv Q [gx; gy; gz] in let u' := mv Q [ux; uy; uz] in
-  mv (Bnode3 r2 (lnth 0 g') (lnth 1 g') (lnth 2 g')) u'
-  = mv (pmat3 a1 a2 a3 b1 b2 b3 1 1 r2) (mv (Bnode3 r2 gx gy gz) [ux; uy; uz]).
-Proof.
-  intros * Hr. cbv zeta. unfold Bnode3, Qmat3, pmat3. rewrite (inv_r2 r2 Hr). mat_cbv.
-  unfold Rdiv. rewrite ?Rinv_1. set (h := / 2). assert (Hh : 2 * h = 1) by (unfold h; field).
-  list_eq ltac:(nsatz).
-Qed.
-
-Theorem strain_moves2 : forall a1 a2 b1 b2 r2 gx gy ux uy, r2 * r2 = 2 ->
-  let Q := Qmat2 a1 a2 b1 b2 in
-  let g' := mv Q [gx; gy] in let u' := mv Q [ux; uy] in
-  mv (Bnode2 r2 (lnth 0 g') (lnth 1 g')) u'
-  = mv (pmat2 a1 a2 b1 b2 1 1 r2) (mv (Bnode2 r2 gx gy) [ux; uy]).
-Proof.
-  intros * Hr. cbv zeta. unfold Bnode2, Qmat2, pmat2. rewrite (inv_r2 r2 Hr). mat_cbv.
-  unfold Rdiv. rewrite ?Rinv_1. set (h := / 2). assert (Hh : 2 * h = 1) by (unfold h; field).
-  list_eq ltac:(nsatz).
-Qed.
-
-(* ---- energy density: with the material moved along (C' = P C P^T = Apply_Pmat(P, C)) and P
-        orthogonal (C11.pmat3_orthogonal), eps'^T C' eps' = eps^T C eps *)
-Lemma mv_PtP : forall P x, wf 6 P -> length x = 6%nat ->
-  mv (mmul 6 (mtrans 6 P) P) x = mv (mtrans 6 P) (mv P x).
-Proof.
-  intros P x HP Hx.
-  destruct (wf6_expand P HP) as (p11&p12&p13&p14&p15&p16&p21&p22&p23&p24&p25&p26&p31&p32&p33&p34&p35&p36&
-    p41&p42&p43&p44&p45&p46&p51&p52&p53&p54&p55&p56&p61&p62&p63&p64&p65&p66&->).
-  destruct (len6 x Hx) as (x1&x2&x3&x4&x5&x6&->).
-  mat_cbv. list_eq ltac:(ring).
-Qed.
-
-Theorem energy_invariant : forall P C e, wf 6 P -> wf 6 C -> length e = 6%nat ->
-  mmul 6 (mtrans 6 P) P = ident 6 ->
-  qf (apply_pmat_global 6 P C) (mv P e) = qf C e.
-Proof.
-  intros P C e HP HC He HO.
-  assert (Hl : length (mv P e) = 6%nat).
-  { destruct (wf6_expand P HP) as (p11&p12&p13&p14&p15&p16&p21&p22&p23&p24&p25&p26&p31&p32&p33&p34&p35&p36&
-      p41&p42&p43&p44&p45&p46&p51&p52&p53&p54&p55&p56&p61&p62&p63&p64&p65&p66&->). reflexivity. }
-  rewrite (qf_congruence P C (mv P e) HP HC Hl).
-  rewrite <- (mv_PtP P e HP He), HO.
-  destruct (len6 e He) as (x1&x2&x3&x4&x5&x6&->).
-  f_equal. mat_cbv. list_eq ltac:(ring).
-Qed.
 
 (* ---- Ke_objective (energy form, one Gauss point, any number of nodes):
    the strain of the moved element with moved nodal displacements is P * strain, by
    linearity over the nodes; hence  u'^T K_e' u' = u^T K_e u  with the moved material, i.e.
    K_e' = R^ K_e R^^T (polarisation of the symmetric forms is not formalised: partial). *)
-Fixpoint vadd (a b : vec) : vec :=
-  match a, b with x :: a', y :: b' => (x + y) :: vadd a' b' | _, _ => [] end.
 
 Definition node3 := (R * R * R * R * R * R)%type.    (* gx gy gz ux uy uz *)
 Fixpoint strain3 (r2 : R) (l : list node3) : vec :=
@@ -106,8 +42,6 @@ Proof.
   cbv [vadd]. mat_cbv. list_eq ltac:(ring).
 Qed.
 
-Lemma pmat3_wf : forall a1 a2 a3 b1 b2 b3 n1 n2 r2, wf 6 (pmat3 a1 a2 a3 b1 b2 b3 n1 n2 r2).
-Proof. intros. split; [reflexivity | repeat constructor]. Qed.
 
 Theorem strain_of_moved_element3 : forall a1 a2 a3 b1 b2 b3 r2 l, r2 * r2 = 2 ->
   strain3 r2 (map (move_node3 (Qmat3 a1 a2 a3 b1 b2 b3)) l)
@@ -193,7 +127,48 @@ Theorem detJ_moves3 : forall r11 r12 r13 r21 r22 r23 r31 r32 r33 j11 j12 j13 j21
   = det3x3 j11 j12 j13 j21 j22 j23 j31 j32 j33 * det3x3 r11 r12 r13 r21 r22 r23 r31 r32 r33.
 Proof. intros. unfold J', Rm, rot3, det3x3. mat_cbv. ring. Qed.
 
+(* ---- the same in 2-D (in-plane motions x |-> R x + t, R any orthogonal 2x2 matrix) *)
+Theorem jacobian_moves2 : forall r11 r12 r21 r22 t1 t2 l a b,
+  Forall (fun n : gnode => length (snd n) = 2%nat) l -> (b < 2)%nat ->
+  let Rm := [[r11; r12]; [r21; r22]] in
+  Jent (map (move_x Rm [t1; t2]) l) a b
+  = lnth 0 (lrow b Rm) * Jent l a 0 + lnth 1 (lrow b Rm) * Jent l a 1 + lnth b [t1; t2] * dsum l a.
+Proof.
+  intros * HF Hb. cbv zeta. induction l as [|[d x] t IH].
+  - cbn. ring.
+  - inversion HF as [|? ? Hx HF']; subst. cbn [snd] in Hx.
+    destruct x as [|x1 [|x2 [|? ?]]]; try discriminate.
+    cbn [map Jent dsum move_x fst snd]. rewrite (IH HF'). clear IH.
+    destruct b as [|[|b]]; [| |exfalso; inversion Hb as [|? H1]; inversion H1 as [|? H2]; inversion H2];
+      cbv [vadd]; mat_cbv; ring.
+Qed.
+
+Theorem grad_moves2 : forall r11 r12 r21 r22 j11 j12 j21 j22 g1 g2 d, orth2 r11 r12 r21 r22 ->
+  let Rm := [[r11; r12]; [r21; r22]] in let J := [[j11; j12]; [j21; j22]] in
+  mv J [g1; g2] = d -> mv (mmul 2 J (mtrans 2 Rm)) (mv Rm [g1; g2]) = d.
+Proof.
+  intros * (H1 & H2 & H3). cbv zeta. intros <-.
+  assert (E : mv (mtrans 2 [[r11; r12]; [r21; r22]]) (mv [[r11; r12]; [r21; r22]] [g1; g2]) = [g1; g2]).
+  { mat_cbv. list_eq ltac:(nsatz). }
+  rewrite <- E at 2. mat_cbv. list_eq ltac:(ring).
+Qed.
+
+Theorem detJ_moves2 : forall r11 r12 r21 r22 j11 j12 j21 j22,
+  let J' := mmul 2 [[j11; j12]; [j21; j22]] (mtrans 2 [[r11; r12]; [r21; r22]]) in
+  entry J' 0 0 * entry J' 1 1 - entry J' 0 1 * entry J' 1 0
+  = (j11 * j22 - j12 * j21) * (r11 * r22 - r12 * r21).
+Proof. intros. unfold J'. mat_cbv. ring. Qed.
+
+Lemma orth2_det_sq : forall r11 r12 r21 r22, orth2 r11 r12 r21 r22 ->
+  (r11 * r22 - r12 * r21) * (r11 * r22 - r12 * r21) = 1.
+Proof. intros * (H1 & H2 & H3). nsatz. Qed.
+
+Example orth2_nonvacuous : orth2 (3/5) (4/5) (4/5) (-3/5).      (* a reflection *)
+Proof. unfold orth2. repeat split; lra. Qed.
+
 Print Assumptions Ke_objective_energy_partial.
+Print Assumptions jacobian_moves2.
+Print Assumptions grad_moves2.
 Print Assumptions thermal_Ke_invariant3.
 Print Assumptions jacobian_moves3.
 Print Assumptions grad_moves3.
